@@ -826,6 +826,8 @@ impl<'a> Lexer<'a> {
         let mut next_token = None;
 
         loop {
+            #[cfg(feature = "verif_hooks")]
+            crate::verif::tick();
             match self.input_iter.next() {
                 Some(c) => match self.process_char(c) {
                     Some(t) => {
